@@ -387,3 +387,38 @@ Example C06_proto_refines_example :
   (* more lenient: a group-start tag (field 1, wire type 3) is walked over by the loop, rejected by wdec *)
   wdec [11] = None /\ verdict (pfields_m false [11]) = (0, 1, 0).
 Proof. vm_compute. repeat split; reflexivity. Qed.
+
+(* (B) Thrift reader vs decoder: whatever ReadAny accepts, ThriftWire.decode (the decoder of the C19
+   round-trip theorems) decodes to some value with exactly the same remaining input.  Only this direction:
+   the reader is stricter (it validates element-type bytes even of empty containers).  No hypothesis on
+   the bytes; depth budget of the decoder = nesting limit of the reader (|bs| + 1 as coded). *)
+Theorem C06_reader_refines_decode :
+  forall bs t s, read_any_coded t bs = Ok s ->
+  exists v, decode (S (length bs)) t bs = Some (v, skipn (Z.to_nat (cur s)) bs).
+Proof. exact reader_refines_decode. Qed.
+Print Assumptions C06_reader_refines_decode.
+
+Theorem C06_reader_clamped_refines_decode :
+  forall bs t s, read_any_clamped t bs = Ok s ->
+  exists v, decode max_skip_depth t bs = Some (v, skipn (Z.to_nat (cur s)) bs).
+Proof. exact reader_clamped_refines_decode. Qed.
+Print Assumptions C06_reader_clamped_refines_decode.
+
+(* general form: any hint policy, any nesting limit, any fuel, any start state in bounds *)
+Theorem C06_reader_refines_decode_general :
+  forall bs clamp lim fuel t d s s', inv bs s ->
+  rrun bs clamp lim fuel (RVal t d) s = Ok s' ->
+  exists v, decode (Z.to_nat d) t (suffix bs s) = Some (v, suffix bs s').
+Proof. exact rrun_ref_val. Qed.
+Print Assumptions C06_reader_refines_decode_general.
+
+Example C06_reader_refines_example :
+  let bs := [11; 0; 1; 0; 0; 0; 2; 104; 105; 13; 0; 2; 8; 11; 0; 0; 0; 1; 0; 0; 0; 7; 0; 0; 0; 1; 120; 0; 9] in
+  verdict (read_any_coded T_STRUCT bs) = (0, 28, 3) /\
+  decode (S (length bs)) T_STRUCT bs =
+    Some (ThriftWire.VStruct [(1, ThriftWire.VString [104; 105]);
+                              (2, ThriftWire.VMap 8 11 [(ThriftWire.VI32 7, ThriftWire.VString [120])])], [9]) /\
+  (* stricter: an empty list whose element-type byte is invalid is rejected by the reader, decoded by the model *)
+  verdict (read_any_coded T_LIST [99; 0; 0; 0; 0]) = (E_TYPE, 1, 1) /\
+  decode 6 T_LIST [99; 0; 0; 0; 0] = Some (ThriftWire.VList 99 [], []).
+Proof. vm_compute. repeat split; reflexivity. Qed.
